@@ -155,7 +155,7 @@ func countedMapRange(ph *ssa.Phi, base ssa.Value, conds []core.CondEdge) bool {
 			case *ssa.MapUpdate, *ssa.Go, *ssa.Defer:
 				return false
 			case *ssa.Call:
-				if _, isB := x.Call.Value.(*ssa.Builtin); !isB {
+				if _, isB := x.Call.Value.(*ssa.Builtin); !isB && !pureLibraryCall(x) {
 					return false
 				}
 			}
@@ -858,6 +858,40 @@ func inRange(s varIdxSite, idx ssa.Value, ctx *idxCtx, depth int) (string, strin
 					}
 				}
 			}
+			// j + k with j < len - c: below the length when k <= c, at most the length when k <= c + 1 (the bounds of
+			// `x[i+1:]` inside a range over x, of `x[i:i+2]` under `i < len(x)-1`)
+			for _, pr := range [][2]ssa.Value{{bo.X, bo.Y}, {bo.Y, bo.X}} {
+				j := pr[0]
+				k, isC := core.ConstInt(pr[1])
+				if !isC || k < 0 {
+					continue
+				}
+				c2 := &idxCtx{conds: ctx.conds, aliases: []ssa.Value{j}}
+				for _, cm := range c2.cmps() {
+					if cm.op != token.LSS {
+						continue
+					}
+					c := int64(-1)
+					if lenAtLeast(base, cm.other, ctx.conds, s.measured) {
+						c = 0
+					} else if sub, ok := cm.other.(*ssa.BinOp); ok && sub.Op == token.SUB {
+						if kk, isK := core.ConstInt(sub.Y); isK && kk >= 0 && lenAtLeast(base, sub.X, ctx.conds, s.measured) {
+							c = kk
+						}
+					}
+					if c < 0 {
+						continue
+					}
+					if k <= c {
+						setBelow(fmt.Sprintf("j + %d with j < len - %d", k, c))
+					} else if k <= c+1 {
+						atMost = true
+						if why == "" {
+							why = fmt.Sprintf("j + %d with j < len - %d", k, c)
+						}
+					}
+				}
+			}
 			// position after a separator that was found: strings.Index(base, sep) + k with k <= len(sep)
 			for _, pr := range [][2]ssa.Value{{bo.X, bo.Y}, {bo.Y, bo.X}} {
 				call, isCall := pr[0].(*ssa.Call)
@@ -1138,4 +1172,35 @@ func argsCountChecked(prm *ssa.Parameter, depth int) string {
 		out = seq
 	}
 	return out
+}
+
+// pureLibraryCall: a call of a function outside the module that is handed values of basic type only (directly or as
+// the elements of its variadic argument): it has no way to reach a map of the module.
+func pureLibraryCall(c *ssa.Call) bool {
+	o := core.CalleeObj(&c.Call)
+	if o == nil || o.Pkg() == nil || core.InModule(o.Pkg().Path()) || c.Call.IsInvoke() {
+		return false
+	}
+	basic := func(v ssa.Value) bool {
+		if mi, ok := v.(*ssa.MakeInterface); ok {
+			v = mi.X
+		}
+		_, isBasic := v.Type().Underlying().(*types.Basic)
+		return isBasic
+	}
+	for _, a := range c.Call.Args {
+		if basic(a) {
+			continue
+		}
+		elems := core.VariadicArgs(a)
+		if elems == nil {
+			return false
+		}
+		for _, e := range elems {
+			if e == nil || !basic(e) {
+				return false
+			}
+		}
+	}
+	return true
 }
